@@ -104,18 +104,39 @@ def excerpt_rules(fns, what, bad):
         # search for '\n'
         end_terms = [e[3] for e in p.events('assign') if isinstance(e[3], tuple) and e[3][:1] == ('IFEXP',)
                      and 'search' in repr(e[3]) and "'\\\\n'" in repr(e[3])]
+        end_is_len = False
+        if not end_terms:
+            # the conditional was taken apart into two paths: end = len(text) when the search found
+            # nothing, end = match.start() otherwise
+            searches = [x for e in p.events('assign') for x in P.subterms(e[3]) if isinstance(x, tuple)
+                        and x[:1] == ('CALL',) and isinstance(x[1], tuple) and x[1][:1] == ('ATTR',)
+                        and x[1][2] == 'search' and "'\\\\n'" in repr(x)]
+            for S in searches:
+                none_tests = [t for t in p.tests() if t[1] in (('CMP', ('Is',), S, ('CONST', 'None')),
+                                                               ('CMP', ('IsNot',), S, ('CONST', 'None')))]
+                for t in none_tests:
+                    is_none = t[2] if t[1][1] == ('Is',) else (not t[2])
+                    if is_none and any(e[3] == LEN_TEXT for e in p.events('assign')):
+                        end_terms, end_is_len = [LEN_TEXT], True
+                    elif not is_none:
+                        st_ = ('CALL', ('ATTR', S, 'start'))
+                        if any(e[3] == st_ for e in p.events('assign')):
+                            end_terms = [st_]
         if len(end_terms) != 1:
             raise AnalysisError(f'{what}: _extract_excerpt: cannot identify the end-of-line computation')
         END = end_terms[0]
         # the search must start at pos or pos + 1 (then end > pos given text[pos] is no line break)
+        pool = [END] + [e[3] for e in p.events('assign')]
         ok_search = any(x[:1] == ('CALL',) and isinstance(x[1], tuple) and x[1][:1] == ('ATTR',) and x[1][2] == 'search'
                         and x[2:] in ((TEXT, ('OP', 'Add', POS, ('CONST', '1'))), (TEXT, POS))
-                        for x in P.subterms(END) if isinstance(x, tuple))
+                        for t_ in pool for x in P.subterms(t_) if isinstance(x, tuple))
         if not ok_search:
             bad('EXCERPT-bounds', f'{what}: the end of the line is not searched from pos (or pos+1): '
                                   f'{P.tfmt(END)[:120]}')
             continue
         symbols = {POS: 'pos', COL: 'col', LEN_TEXT: 'n', END: 'end'}
+        if end_is_len:
+            symbols = {POS: 'pos', COL: 'col', LEN_TEXT: 'end'}
         start = A.sub(A.sym('pos'), A.sub(A.sym('col'), A.const(1)))
         hyps = [A.ge(A.sym('col'), A.const(1)), A.ge(start, A.const(0)),
                 A.gt(A.sym('end'), A.sym('pos')), A.ge(A.sym('n'), A.sym('end'))]
@@ -228,15 +249,21 @@ def linecol_rules(fns, what, bad):
     NL = ('CONST', "'\\n'")
     nob = 0
     kinds = {}
+    EQ = (('CMP', ('Eq',), C, NL), ('CMP', ('Eq',), NL, C))
+    NE = (('CMP', ('NotEq',), C, NL), ('CMP', ('NotEq',), NL, C))
+
+    def is_newline(bp):
+        nl = [t[2] if t[1] in EQ else (not t[2]) for t in bp.tests() if t[1] in EQ + NE]
+        return nl
     for bp in lp[2]:
-        nl = [t for t in bp.tests() if t[1] in (('CMP', ('Eq',), C, NL), ('CMP', ('Eq',), NL, C))]
+        nl = is_newline(bp)
         if len(nl) != 1:
             raise AnalysisError(f'{what}: _map_index_to_line_and_column: loop path without the line-break test')
         apps = {}
         for e in bp.events():
             if e[1] == 'call:append':
                 apps.setdefault(e[2], []).append(e[3][0])
-        kinds[nl[0][2]] = apps
+        kinds[nl[0]] = apps
         for tbl in (LT, CT):
             nob += 1
             if len(apps.get(tbl, [])) != 1:
@@ -270,7 +297,7 @@ def linecol_rules(fns, what, bad):
     # carried state is updated consistently
     for outcome, apps in kinds.items():
         for bp in lp[2]:
-            if [t[2] for t in bp.tests() if t[1] in (('CMP', ('Eq',), C, NL), ('CMP', ('Eq',), NL, C))] != [outcome]:
+            if is_newline(bp) != [outcome]:
                 continue
             want_line = ('OP', 'Add', ('PHI', lname, lid), ('CONST', '1')) if outcome else ('PHI', lname, lid)
             want_col = ('CONST', '0') if outcome else ('OP', 'Add', ('PHI', cname, lid), ('CONST', '1'))
